@@ -346,6 +346,44 @@ func checkC10(r *Result) {
 		}
 		r.check(okW, "UNJAIL", "writers of OracleReporter.Jailed", "-", fmt.Sprint(keysOf(ws)))
 	}
+	// ---- SWITCH-LOCK, second door: removing a selection deletes its lock with it, so a removal followed by a new
+	// selection must not be a way around the lock of SwitchReporter. Today the removal is only reachable for a
+	// reporter with more selectors than the cap (which joining never produces); relaxing that comparison opens
+	// "remove, select another reporter, report again in the same window".
+	if rs := P.Func("(x/reporter/keeper.msgServer).RemoveSelector"); rs == nil {
+		r.broken("anchor RemoveSelector does not resolve")
+	} else {
+		r.fn("(x/reporter/keeper.msgServer).RemoveSelector")
+		ps := AnalyzePaths(rs, []Atom{{Name: "hasMin", Stable: true, Cond: func(rel *Term) (bool, bool) {
+			// the one HasMin result is tested twice (`if hasMin {return}` ... `if !hasMin {`): a stable atom, so
+			// that the branch that skips the cap test is known to be infeasible
+			return rel.Op == "ext:0" && len(rel.Args) == 1 && strings.HasSuffix(rel.Args[0].Op, "Keeper).HasMin"), true
+		}}, {Name: "overCap", Cond: func(rel *Term) (bool, bool) {
+			if len(rel.Args) != 2 {
+				return false, true
+			}
+			isLen := func(t *Term) bool { return strings.HasPrefix(t.Op, "len") || t.Contains("len") && !t.Contains("MaxSelectors") }
+			isCap := func(t *Term) bool { return t.Contains("Params.MaxSelectors") }
+			a, b := rel.Args[0], rel.Args[1]
+			switch {
+			case rel.Op == "<=" && isLen(a) && isCap(b): // len <= cap : over the cap when false
+				return true, false
+			case rel.Op == "<" && isCap(a) && isLen(b): // cap < len : over the cap when true
+				return true, true
+			}
+			return false, true
+		}}})
+		n := 0
+		for _, cs := range P.Sites(descIs("coll:x/reporter/keeper.Keeper.Selectors.Remove")) {
+			if TopFunc(cs.Fn) != rs {
+				continue
+			}
+			n++
+			bad := ps.Require(cs.Instr, func(v map[string]bool) bool { return v["overCap"] })
+			r.check(len(bad) == 0 && len(ps.Matched["overCap"]) > 0, "SWITCH-LOCK", "(x/reporter/keeper.msgServer).RemoveSelector # a selection (and its lock) is removed only from a reporter that holds more selectors than the cap", P.Pos(cs.Pos()), fmt.Sprintf("valuations: %v", statesStr(ps, cs.Instr)))
+		}
+		r.check(n == 1, "SWITCH-LOCK", "(x/reporter/keeper.msgServer).RemoveSelector # one removal site", P.Pos(rs.Pos()), fmt.Sprint(n))
+	}
 	r.minCount("JOIN-GUARDS", 5)
 	r.minCount("SWITCH-LOCK", 4)
 	r.minCount("STAKE-COUNT", 6)
